@@ -89,7 +89,10 @@ def gen_layout(rng, irregular_ok=True, inside_h=True) -> Layout:
         ref_sd = max(1, ref_dur // ref_n)
         sn = rng.choice([1, 1, 1, 0, 5])
         sd = None if rng.random() < .7 else max(1, base + rng.choice([0, 1, -1]))
-        lay = Layout(ts, durs, ref_dur, ref_ts, ref_sd, ref_n, sd, sn)
+        # first stored decode time of the file (Representation.start_time): the index calculations must not
+        # depend on it
+        st = rng.choice([0, 0, 0, 1, 3 * base, 2 ** 32 + 5])
+        lay = Layout(ts, durs, ref_dur, ref_ts, ref_sd, ref_n, sd, sn, st)
         if lay.R <= 0:
             continue
         if inside_h and not (lay.H1() and lay.adv_positive()):
